@@ -98,7 +98,7 @@ func pickSome(r *rand.Rand, u []uint64, max int) []uint64 {
 var (
 	mutUnary = []string{"add", "add", "remove", "checkedadd", "clear"}
 	binary   = []string{"or", "and", "andnot", "xor"}
-	reads    = []string{"contains", "card", "slice", "each", "clone", "eachstop", "snapwalk", "eachpanic"}
+	reads    = []string{"contains", "card", "slice", "each", "clone", "eachstop", "snapwalk", "iter", "eachpanic"}
 )
 
 // genBigConc: several callers on shared wrappers that hold tens of thousands of values: a small
@@ -163,6 +163,9 @@ func genBigConc(r *rand.Rand) WL {
 func gen(r *rand.Rand) WL {
 	if r.IntN(50) == 0 {
 		return genBigConc(r)
+	}
+	if r.IntN(12) == 0 {
+		return genTSKB(r)
 	}
 	w := WL{Width: []int{32, 64}[r.IntN(2)]}
 	u := universe(w.Width, r)
@@ -375,7 +378,7 @@ func apply(s set, i in) outp {
 		_, o.B = s[i.V[0]]
 	case "card":
 		o.N = uint64(len(s))
-	case "slice", "each", "clone":
+	case "slice", "each", "clone", "iter":
 		o.S = s.sorted()
 	case "eachpanic":
 		// the delegate panics on the first value and the caller recovers: nothing is returned, and the
@@ -510,6 +513,19 @@ func doOp[T uint32 | uint64](p cardinality.Duplex[T], o Op, operand cardinality.
 		var got []T
 		p.Each(func(v T) bool { got = append(got, v); return true })
 		r.S = sortedU64(got)
+	case "iter":
+		// the iterator of the plain bitmaps (the wrappers do not offer one: they are asked for a slice)
+		if it, ok := any(p).(interface {
+			Iterator() cardinality.Iterator[T]
+		}); ok {
+			var got []T
+			for i := it.Iterator(); i.HasNext(); {
+				got = append(got, i.Next())
+			}
+			r.S = sortedU64(got)
+		} else {
+			r.S = sortedU64(p.Slice())
+		}
 	case "eachpanic":
 		func() {
 			defer func() { recover() }()
@@ -848,6 +864,9 @@ func bigConc(w WL) bool {
 }
 
 func exec(t *testing.T, w WL, cfg simrt.Config) simh.Outcome {
+	if w.Mode == "tskb" {
+		return execTSKB(t, w, cfg)
+	}
 	if w.Width == 32 {
 		return run[uint32](t, w, cfg)
 	}
